@@ -148,6 +148,20 @@ pub fn minimise(orig: &RunSpec, orig_budgets: &[Budget], v0: &Violation) -> Mini
                 c.instances[i].payload = Payload::Typed;
                 progress |= attempt!(c);
             }
+            // a domain failure: try the call-number plans that fail at the same first call
+            if cur.instances[i].plan.is_domain() {
+                let r = execute(&cur, &cur_b, &ExecOpts::default());
+                if let Some(k) = r.insts.get(i).and_then(|s| s.first_fired_call) {
+                    for p in [FaultPlan::Transient(k), FaultPlan::Permanent(k)] {
+                        let mut c = cur.clone();
+                        c.instances[i].plan = p;
+                        if attempt!(c) {
+                            progress = true;
+                            break;
+                        }
+                    }
+                }
+            }
             // fault plan: to a single failure, then to the smallest call number
             if let Some(k) = cur.instances[i].plan.first() {
                 for p in [FaultPlan::None, FaultPlan::Transient(k), FaultPlan::Permanent(k)] {
